@@ -958,6 +958,35 @@ def check_history(pairs, kind):
     return None
 
 
+FIXED_KINDS = ('icb', 'rej', 'irt', 'irta', 'est', 'disc', 'nni')
+
+
+def check_body_prefix(M, body, k):
+    """the first k < len(body) octets of an encoded body: fixed-layout messages must be refused with DecodingError;
+    a network list cut at an odd offset (or a Who-Is-Router network cut after one octet) likewise; a list cut on
+    an element boundary must decode to exactly the shorter list"""
+    from bacpypes import npdu as N
+    from bacpypes.errors import DecodingError
+    kind = M[0]
+    d = {'msg': descM(M), 'body': bytes(body).hex(), 'cut': k}
+    must_refuse = kind in FIXED_KINDS or (k % 2 == 1)
+    try:
+        n = N.NPDU(bytes(body[:k]))
+        n.npduNetMessage = CODE_OF_KIND[kind]
+        o = N.npdu_types[CODE_OF_KIND[kind]]()
+        o.decode(n)
+    except DecodingError:
+        return None if must_refuse else dict(d, kind='body-prefix-refused-on-element-boundary')
+    except Exception as e:
+        return dict(d, kind='truncated-body-other-error', exc=type(e).__name__)
+    if must_refuse:
+        return dict(d, kind='truncated-body-not-refused', decoded=canon_msgobj(o)[:40])
+    want = (kind, list(M[1])[:k // 2]) if kind in ('iam', 'busy', 'avail') else ('whois', None)
+    if canon_msgobj(o) != canon_msgspec(want):
+        return dict(d, kind='truncated-body-misread', decoded=canon_msgobj(o)[:40], want=canon_msgspec(want)[:40])
+    return None
+
+
 def direct(rng, tier, focus=()):
     big = tier == 'thorough'
     failures, nontriv, samples = [], set(), []
@@ -1039,6 +1068,14 @@ def direct(rng, tier, focus=()):
             n += 1
             add(check_history(pairs, k))
             nontriv.add(('hist', k, repr([m for m, _ in pairs])))
+    # 3c. message bodies cut short
+    for k in KINDS:
+        for M, body in per[k][:(40 if big else 12)]:
+            cuts = range(len(body)) if len(body) <= 48 else sorted(set([0, 1, 2, 3, 4, 5, len(body) - 2, len(body) - 1]
+                                                                        + [rng.randrange(len(body)) for _ in range(8)]))
+            for c in cuts:
+                n += 1
+                add(check_body_prefix(M, body, c))
     samples.append({'direct': 'history of decodes per class', 'example': [descM(('avail', [1, 2])), descM(('avail', [3]))]})
     samples.append({'direct': 'message roundtrip through npdu_types', 'example': descM(('irt', [(5, 1, b'\x01\x02')]))})
     # 4. focus: whatever the correspondence disagreed on
@@ -1094,6 +1131,8 @@ def replay(payload):
         print('reference reading :', ref_parse(bs)[:2])
         print('implementation    : NPDU.decode ->', impl_dec_npdu(bs))
         print('direct predicate  :', check_octets(bs))
+    elif 'cut' in f and 'body' in f:
+        print('direct predicate  :', check_body_prefix(_undescM(f['msg']), bytes.fromhex(f['body']), f['cut']))
     elif 'history' in f and 'bodies' in f:
         kind = KINDS[NAMES.index(f['class'])]
         pairs = [(_undescM(m), bytes.fromhex(b)) for m, b in zip(f['history'], f['bodies'])]
